@@ -535,6 +535,17 @@ func csvtSplitRecord(l string) ([]string, bool) {
 	return append(cells, cur.String()), true
 }
 
+// csvtSafeCSV: the real writer at generation time; a panic of the converter (the executor reports it on the csvtext
+// operation of the same input) must not end the generation.
+func csvtSafeCSV(b []byte, flags string) (text string, err error) {
+	defer func() {
+		if r := recover(); r != nil {
+			err = fmt.Errorf("panic")
+		}
+	}()
+	return csvToCSV(b, flags)
+}
+
 func genCsvText(emit func(string), tier string, rng *Rng) {
 	n := 500
 	if tier == "thorough" {
@@ -597,7 +608,7 @@ func genCsvText(emit func(string), tier string, rng *Rng) {
 		if err != nil {
 			continue
 		}
-		text, err := csvToCSV(b, flags)
+		text, err := csvtSafeCSV(b, flags)
 		if err != nil || len(text) > 20000 {
 			continue
 		}
